@@ -3,6 +3,7 @@ package main
 // C04 — each client handshake accepted once, within ±1 hour (DESIGN 4, C04).
 
 import (
+	"strings"
 	"fmt"
 	"go/token"
 	"go/types"
@@ -194,6 +195,20 @@ func sumPrefix(p *Prog, v ssa.Value, n int64) *ssa.Call {
 }
 
 func runC04(c *Ctx) {
+	// "accepted at most once" rests on the filter's test-and-set being one atomic step for
+	// simultaneous connections: the replay filter's own obligations (C11) are part of this
+	// property too, imported under rule names RF0..RF5
+	defer func() {
+		sub := NewCtx(c.P, c.Prop, c.Tier)
+		runC11(sub)
+		for _, o := range sub.Obls {
+			o.Key = strings.Replace(o.Key, c.Prop+".R", c.Prop+".RF", 1)
+			c.Obls = append(c.Obls, o)
+		}
+		for k := range sub.fnSeen {
+			c.fnSeen[k] = true
+		}
+	}()
 	p := c.P
 	wrap := obfs4WrapConn(c)
 	vs := p.funcsCalling("transports/obfs4", idTestAndSet)
